@@ -6,7 +6,12 @@ most requests are inside the in-range contract (DESIGN.md Appendix C) and concen
 row / last column, text and erasures ending exactly at the right edge, rectangles touching the screen edges,
 one-line and one-column rectangles, offsets 0, +-1, +-(n-1), counts around the 64-byte chunk of the reverse-video
 erase.  A few percent of the requests are deliberately out of range (compared byte for byte, not judged).
-The two known findings of C09 are triggered only in dedicated histories (at most two per file) so that they cannot
+Histories also resize the terminal (`resize L C` = tickit_term_set_size after the emulator's window changed):
+mostly the width, often right after a scroll and followed by a scroll whose right edge is the OLD width or the new
+one, so that a scroll decision made with a stale size is exposed.  The start-up probes are answered with every
+DECRPM value 0..4 for each of the modes 69 / 25 / 12 (`new L C slrm colon rgb vis blink`); reply 2 for mode 69 (known
+finding slrm_probe_reset while the tree accepts it) only in its dedicated history.
+The known findings of C09 are triggered only in dedicated histories (at most two per file) so that they cannot
 crowd out other disagreements; tier `exhaustive` enumerates every rectangle and offset on 4x5 and 3x3 screens for
 every capability combination, every erase on a 2x5 screen and every goto/move on a 3x3 screen.
 """
@@ -30,16 +35,25 @@ def hexs(s):
 
 
 class Hist:
-    def __init__(self, L, C, slrm, colon, rgb, trigger=None):
-        self.L, self.C, self.slrm = L, C, slrm
+    def __init__(self, L, C, slrm, colon, rgb, trigger=None, vis=None, blink=None):
+        # slrm / vis / blink: DECRPM reply values for modes 69 / 25 / 12; self.slrm: is DECSLRM expected to be used
+        self.L, self.C, self.slrm = L, C, 1 if slrm in (1, 2) else 0
         self.row, self.col, self.pw, self.known = 0, 0, False, True
         self.rv = False
-        self.trigger = trigger      # None | "onecol" | "rvlast"
+        self.trigger = trigger      # None | "onecol" | "rvlast" | "probe2"
         self.n = 0
-        lines.append(f"new {L} {C} {slrm} {colon} {rgb}")
+        self.prevC = None           # width before the last resize that changed it
+        self.just_resized = False
+        self.scrolled = False       # has a scrollrect been sent (a driver might cache something on the first one)
+        if vis is None:
+            lines.append(f"new {L} {C} {slrm} {colon} {rgb}")
+        else:
+            lines.append(f"new {L} {C} {slrm} {colon} {rgb} {vis} {blink}")
+            dist[f"reply25:{vis}"] += 1; dist[f"reply12:{blink}"] += 1
         dist["hist"] += 1
         dist[f"size:{'1xN' if L == 1 else 'Nx1' if C == 1 else 'small' if L * C <= 48 else 'medium' if L * C <= 2400 else 'large'}"] += 1
-        dist[f"caps:{slrm}{colon}{rgb}"] += 1
+        dist[f"caps:{self.slrm}{colon}{rgb}"] += 1
+        dist[f"reply69:{slrm}"] += 1
 
     def emit(self, s, kind):
         lines.append(s); dist["op:" + kind] += 1; self.n += 1
@@ -182,7 +196,13 @@ class Hist:
     def rect(self):
         L, C = self.L, self.C
         kind = rng.choice(["full", "band", "band", "right", "left", "inner", "inner", "oneline", "onecol", "any", "any"])
-        if kind == "full":
+        if self.prevC is not None and self.prevC < C and rng.random() < (0.6 if self.just_resized else 0.3):
+            kind = rng.choice(["oldright", "oldright", "oldfull"])
+        if kind == "oldright":        # right edge where the right edge of the screen used to be
+            t = rng.randrange(L); n = rng.randrange(1, L - t + 1); l = rng.randrange(self.prevC); c = self.prevC - l
+        elif kind == "oldfull":
+            t = rng.randrange(L); n = rng.randrange(1, L - t + 1); l, c = 0, self.prevC
+        elif kind == "full":
             t, l, n, c = 0, 0, L, C
         elif kind == "band":
             t = rng.randrange(L); n = rng.randrange(1, L - t + 1); l, c = 0, C
@@ -235,7 +255,26 @@ class Hist:
                         dist["strategy:refused"] += 1
             self.emit(f"scroll {t} {l} {n} {c} {d} {r}", "scroll")
             self.known = False
+            self.scrolled = True
             return
+
+    def resize(self):
+        L, C = self.L, self.C
+        if not self.scrolled and rng.random() < 0.7:
+            self.scroll()
+        nL = L if rng.random() < 0.6 else rng.choice([max(1, L - 1), L + 1, rng.randrange(1, L + 4)])
+        nC = rng.choice([C + 1, max(1, C - 1), C + rng.randrange(1, 8), max(1, C - rng.randrange(1, 8)), 2 * C, max(1, C // 2), C])
+        nL, nC = min(nL, 60), min(nC, 300)
+        self.emit(f"resize {nL} {nC}", "resize")
+        dist["resize:" + ("same" if (nL, nC) == (L, C) else ("wider" if nC > C else "narrower" if nC < C else "same-width") + ("+lines" if nL != L else ""))] += 1
+        if nC != C:
+            self.prevC = C
+        self.L, self.C = nL, nC
+        self.known = False
+        if rng.random() < 0.7:
+            self.just_resized = True
+            self.scroll()
+            self.just_resized = False
 
     def fill(self):
         """paint the whole screen with text so that scrolls move recognisable content"""
@@ -261,20 +300,28 @@ def random_history(trigger=None):
         L, C = max(L, 3), max(C, 3)
     if trigger == "rvlast":
         C = max(C, rng.choice([2, 70, 140]))
-    slrm = 1 if trigger == "onecol" else rng.choice([0, 1, 1, 2])
-    h = Hist(L, C, slrm, rng.randrange(2), rng.randrange(2), trigger)
+    # DECRPM reply for mode 69: 2 ("reset") makes the unchanged tree claim DECSLRM on a terminal whose DECLRMM is
+    # reset (known finding slrm_probe_reset): only in its dedicated history
+    slrm = 1 if trigger == "onecol" else 2 if trigger == "probe2" else rng.choice([0, 0, 1, 1, 1, 1, 3, 4, 4])
+    if rng.random() < 0.5:
+        h = Hist(L, C, slrm, rng.randrange(2), rng.randrange(2), trigger)
+    else:
+        h = Hist(L, C, slrm, rng.randrange(2), rng.randrange(2), trigger, rng.randrange(5), rng.randrange(5))
+    if trigger == "probe2":
+        h.scroll(); h.scroll()
+        return
     if trigger == "rvlast":
         h.emit("setpen rv=1", "setpen"); h.rv = True
     if rng.random() < 0.3 and L * C <= 2400:
         h.fill()
     nops = rng.randrange(8, 36)
-    weights = [("goto", 16), ("move", 12), ("print", 16), ("erasech", 20), ("clear", 3), ("scroll", 23), ("pen", 10)]
+    weights = [("goto", 16), ("move", 12), ("print", 16), ("erasech", 20), ("clear", 3), ("scroll", 23), ("pen", 10), ("resize", 5)]
     if trigger == "onecol": weights = [("goto", 5), ("print", 10), ("scroll", 60), ("pen", 5)]
     if trigger == "rvlast": weights = [("goto", 20), ("print", 10), ("erasech", 60)]
     names = [w[0] for w in weights]; ws = [w[1] for w in weights]
     while h.n < nops:
         k = rng.choices(names, ws)[0]
-        {"goto": h.goto, "move": h.move, "print": h.print_, "erasech": h.erasech, "clear": h.clear, "scroll": h.scroll, "pen": h.pen}[k]()
+        {"goto": h.goto, "move": h.move, "print": h.print_, "erasech": h.erasech, "clear": h.clear, "scroll": h.scroll, "pen": h.pen, "resize": h.resize}[k]()
 
 
 def exhaustive():
@@ -300,6 +347,48 @@ def exhaustive():
                     if (n % 3) == 0: h.emit("setpen bg=%d" % (n % 16), "setpen")
                     h.emit("scroll %d %d %d %d %d %d" % cs, "scroll"); n += 1
     dist["exhaustive:scroll"] = n
+    # every DECRPM reply value for mode 69 (2 only while it is not the known finding slrm_probe_reset: probed from the
+    # corpus) x every rectangle and offset on a 3x3 screen; replies for modes 25 / 12 run through 0..4 alongside
+    p = 0
+    for reply in (0, 1, 3, 4):
+        cases = []
+        L, C = 3, 3
+        for t in range(L):
+            for b in range(t + 1, L + 1):
+                for l in range(C):
+                    for r in range(l + 1, C + 1):
+                        nl, nc = b - t, r - l
+                        for d in range(-(nl - 1), nl):
+                            for rt in range(-(nc - 1), nc):
+                                cases.append((t, l, nl, nc, d, rt))
+        for i in range(0, len(cases), 6):
+            h = Hist(L, C, reply, 0, 0, None, (i // 6) % 5, (i // 30) % 5)
+            for cs in cases[i:i + 6]:
+                h.fill()
+                h.emit("scroll %d %d %d %d %d %d" % cs, "scroll"); p += 1
+    dist["exhaustive:probe-reply-scroll"] = p
+    # resize: a scroll at the old size, the resize, then every rectangle x offset at the new size (one scroll per
+    # history, so that every one of them is the first after the resize), with and without DECSLRM
+    q = 0
+    for (L0, C0), (L, C) in [((2, 3), (2, 4)), ((2, 4), (2, 3)), ((2, 3), (3, 3)), ((3, 2), (2, 4))]:
+        for reply in (0, 1):
+            for t in range(L):
+                for b in range(t + 1, L + 1):
+                    for l in range(C):
+                        for r in range(l + 1, C + 1):
+                            nl, nc = b - t, r - l
+                            h = None
+                            for d in range(-(nl - 1), nl):
+                                for rt in range(-(nc - 1), nc):
+                                    if d == 0 and rt == 0:
+                                        continue
+                                    h = Hist(L0, C0, reply, 0, 0)
+                                    h.fill()
+                                    h.emit(f"scroll 0 0 {L0} {C0} {1 if L0 > 1 else 0} {0 if L0 > 1 else 1}", "scroll")
+                                    h.emit(f"resize {L} {C}", "resize"); h.L, h.C = L, C
+                                    h.fill()
+                                    h.emit(f"scroll {t} {l} {nl} {nc} {d} {rt}", "scroll"); q += 1
+    dist["exhaustive:resize-scroll"] = q
     # every erase on a 2x5 screen: column, count, moveend, reverse
     m = 0
     for rv in (0, 1):
@@ -336,11 +425,12 @@ else:
     nh = 350 if a.tier == "quick" else 2500
     random_history("onecol")
     random_history("rvlast")
+    random_history("probe2")
     for _ in range(nh):
         random_history()
 
 open(a.out, "w").write("\n".join(lines) + "\n")
 info = {"ops": len(lines), "histories": dist["hist"], "distribution": dict(sorted(dist.items()))}
 if a.tier == "exhaustive":
-    info["exhaustive_bound"] = "all rectangles x in-range offsets on 4x5 and 3x3 screens x 8 capability combinations; all erasech (col,count,moveend,reverse) on 2x5; all goto/move on 3x3 (the two known-finding triggers excluded: they are probed from corpus/C09)"
+    info["exhaustive_bound"] = "all rectangles x in-range offsets on 4x5 and 3x3 screens x 8 capability combinations; all erasech (col,count,moveend,reverse) on 2x5; all goto/move on 3x3; every rectangle x offset on 3x3 for the DECRPM replies 0/1/3/4 of mode 69; scroll + resize (2x3->2x4, 2x4->2x3, 2x3->3x3, 3x2->2x4) + every rectangle x non-zero offset at the new size, with and without DECSLRM (the known-finding triggers excluded: they are probed from corpus/C09)"
 print(json.dumps(info))
